@@ -30,7 +30,7 @@ RULE = ('Nested structures of lists, tuples, dicts, defaultdicts, named tuples, 
         'MemoizedTraversal+map_children, legacy memoized_traverse and traverse_with_path. '
         'Non-trivial: >=1 object with >=2 paths; distinct = structure sketch.')
 RULE_ADDITIONS = (' Added by the rounds of seeded changes (DESIGN 9.7): ' +
-                  'cycle detection through a custom registry; id-reuse stress over flatten temporaries (both memoised traversals); **kwargs in shuffled order; edited result of the all-paths query; re-traversal after in-place **kwargs reorder; stacked registry with an empty middle layer; positional gaps')
+                  'cycle detection through a custom registry; id-reuse stress over flatten temporaries (both memoised traversals); **kwargs in shuffled order; edited result of the all-paths query; re-traversal after in-place **kwargs reorder; stacked registry with an empty middle layer; positional gaps; an application-registered opaque named-tuple class in the stacked registry; pointsub containers')
 RULE = RULE + RULE_ADDITIONS
 ASSUMPTIONS = [
     'reference walker: list/tuple by index, named tuple by field, dict by key, Buildable by '
